@@ -179,6 +179,7 @@ class QintImp(int, Qtype):
             n -= 1
 
         result_ttype = cast(TType, result_type)
+        t_num = result_type.fill((result_ttype, t_num[1]))
 
         t_num_r = result_type.shift_left((result_ttype, t_num[1]), n)
 
